@@ -11,5 +11,10 @@ func init() {
 			Old:    "\t\t// latest block.\n\t\tprunedNodes, err = c.pruneGraphNodes(nodes, edgeIndex)\n\n\t\treturn err\n\t}, func() {\n\t\tchansClosed = nil\n",
 			New:    "\t\t// latest block.\n\t\tif len(chansClosed) > 0 {\n\t\t\tprunedNodes, err = c.pruneGraphNodes(nodes, edgeIndex)\n\t\t}\n\n\t\treturn err\n\t}, func() {\n\t\tchansClosed = nil\n",
 			Expect: "every-pruned-block-collects-channelless-nodes"},
+		// fix reversal of 41afca5: the sql store leaves the closure without collecting nodes when the block spent no channel
+		{Name: "fixrev-sql-prune-skips-node-collection", File: "graph/db/sql_store.go",
+			Old:    "\t\t\tprunedNodes, err = s.pruneGraphNodes(ctx, db)\n\t\t\tif err != nil {\n\t\t\t\treturn fmt.Errorf(\"unable to prune graph \"+\n\t\t\t\t\t\"nodes: %w\", err)\n\t\t\t}\n\n\t\t\treturn nil\n",
+			New:    "\t\t\treturn nil\n",
+			Expect: "every-pruned-block-collects-channelless-nodes"},
 	}...)
 }
